@@ -15,6 +15,7 @@ pub mod c11;
 pub mod c12;
 pub mod c13;
 pub mod c14;
+pub mod c15;
 pub mod c16;
 pub mod c17;
 pub mod c18;
@@ -26,6 +27,7 @@ macro_rules! dispatch {
         match $id {
             "C01" => $f(&c01::C01, $($arg),*),
             "C02" => $f(&c02::C02, $($arg),*),
+            "C15" => $f(&c15::C15, $($arg),*),
             "C16" => $f(&c16::C16, $($arg),*),
             "C17" => $f(&c17::C17, $($arg),*),
             "C18" => $f(&c18::C18, $($arg),*),
